@@ -109,6 +109,11 @@ def run(prop, tier, seed):
         import liftmodel
         lift = liftmodel.run(tier, seed)
         liftmodel.report(prop, v, lift)
+    packed = None
+    if prop == "C12":
+        import packedmodel
+        packed = packedmodel.run(tier, seed)
+        packedmodel.report(prop, v, packed)
     cov = {
         "states": res["states"],
         "transitions": res["transitions"],
@@ -120,6 +125,9 @@ def run(prop, tier, seed):
         "rule": "contracts enumerated by IdiomsGen + seeded generators; a program contributes when its analysis succeeds",
         "samples": [res["sample"]],
     }
+    if packed:
+        cov["packed_merge_model"] = packedmodel.coverage(packed)
+        cov["states"] += packed["states"]
     if lift:
         cov["lifting_model"] = liftmodel.coverage(lift)
         cov["states"] += lift["states"]
@@ -136,6 +144,15 @@ def run(prop, tier, seed):
 def replay(prop, path, seed):
     from common import read_json as _rj
     _doc = _rj(path)
+    if _doc["replay"].get("kind") == "packed-pair":
+        import packedmodel
+        from common import Verdict as _V
+        _v = _V(prop, _doc.get("tier", "quick"), _doc.get("seed", seed))
+        _n = packedmodel.report(prop, _v, packedmodel.run(_doc.get("tier", "quick"), _doc.get("seed", seed)))
+        print(json.dumps({"packed_merge_violations": _n}))
+        if _n:
+            print(f"VIOLATION property={prop} replay={path}")
+        return 1 if _n else 0
     if _doc["replay"].get("kind") == "lift-term":
         # one term of LiftGen: run it alone through the real passes and LiftTrace
         wd = workdir("lift-replay")
